@@ -634,9 +634,20 @@ pub fn run(args: &Args, which: &str) -> Report {
         cmd.arg("--child").arg(from.to_string()).arg(&progress).arg(&findings);
         cmd.stderr(std::process::Stdio::null());
         let mut ch = cmd.spawn().expect("spawn child");
-        // watchdog: no progress for 6 s = hang (a case takes microseconds to milliseconds)
+        // watchdog (a case takes microseconds to milliseconds): a hang is 6 s of *CPU time of the child* without a
+        // progress mark (busy loop), or 120 s of wall time during which the child used no CPU (blocked). Wall time alone
+        // is not used: on an overloaded machine a healthy child may not be scheduled for many seconds.
+        let cpu_of = |pid: u32| -> f64 {
+            // utime + stime (fields 14, 15 of /proc/<pid>/stat, in clock ticks of 1/100 s)
+            let st = std::fs::read_to_string(format!("/proc/{pid}/stat")).unwrap_or_default();
+            let after = st.rsplit(')').next().unwrap_or("");
+            let f: Vec<&str> = after.split_whitespace().collect();
+            let t: u64 = f.get(11).and_then(|x| x.parse::<u64>().ok()).unwrap_or(0) + f.get(12).and_then(|x| x.parse::<u64>().ok()).unwrap_or(0);
+            t as f64 / 100.0
+        };
         let mut last = String::new();
         let mut last_change = std::time::Instant::now();
+        let mut cpu_at_change = 0f64;
         let mut changes = 0u32;
         let status = loop {
             match ch.try_wait() {
@@ -646,11 +657,15 @@ pub fn run(args: &Args, which: &str) -> Report {
             }
             std::thread::sleep(std::time::Duration::from_millis(200));
             let cur = std::fs::read_to_string(&progress).unwrap_or_default();
+            let cpu = cpu_of(ch.id());
+            let cpu_limit = if changes < 2 { 90.0 } else { 6.0 };
+            let wall = last_change.elapsed().as_secs();
             if cur != last {
                 last = cur;
                 last_change = std::time::Instant::now();
+                cpu_at_change = cpu;
                 changes += 1;
-            } else if last_change.elapsed().as_secs() > (if changes < 2 { 90 } else { 6 }) {
+            } else if cpu - cpu_at_change > cpu_limit || (wall > 120 && cpu - cpu_at_change < 1.0) || wall > 1800 {
                 // (seed capture and case generation happen before the second progress mark: generous allowance)
                 let _ = ch.kill();
                 let _ = ch.wait();
